@@ -143,12 +143,12 @@ func cmdVerify(args []string) {
 					}
 					fmt.Printf("    %-8s %s  (%d instance(s), %d failing)\n", st, n, len(obs), nf)
 					if obs[0].Cover && *verbose {
-						for _, ob := range obs {
+						for ci, ob := range obs {
 							if ob.Status == "unsat" {
 								fmt.Printf("        infeasible path %s\n", ob.Path)
 								if *dump != "" {
 									os.MkdirAll(*dump, 0o755)
-									fnm := fmt.Sprintf("%s/cover_%s.smt2", *dump, strings.ReplaceAll(ob.Path, ">", "_"))
+									fnm := fmt.Sprintf("%s/cover_%s_%d.smt2", *dump, strings.ReplaceAll(ob.Path, ">", "_"), ci)
 									os.WriteFile(fnm, []byte(ob.SMT(true)), 0o644)
 								}
 							}
